@@ -33,6 +33,18 @@ func Tasks(c *ev.Check, h Harness) []ev.Task {
 		n = 1
 	}
 	var out []ev.Task
+	if os.Getenv("VERIF_RACE") == "1" {
+		// race pass: the harness body free-running (real goroutines, binary built with -race), a few hundred times
+		if h.Bound != 0 {
+			return nil
+		}
+		return []ev.Task{{Name: "race/" + h.Name, Free: true, Run: func() {
+			for i := 0; i < 300; i++ {
+				vsched.FreeRun(h.Body)
+			}
+			c.Add("free_runs", 300)
+		}}}
+	}
 	for s := 0; s < n; s++ {
 		s := s
 		out = append(out, ev.Task{Name: fmt.Sprintf("%s/pb%d/shard%d", h.Name, h.Bound, s), Run: func() { explore(c, h, s, n) }})
